@@ -11,10 +11,36 @@ TreeOrd,TreeMember,TreeFull,TreeGroups,TreeExpected,TreeGood,TreeFlat,TreeMember
 TreeBridge,TreeSorted,TreeTop}.lean.
 -/
 import OnosVerif.Proofs.TreeTop
+import OnosVerif.Generated.Facts
 
 namespace OnosVerif.Props.C18
 open OnosVerif.Tree
 open OnosVerif.Path (Str)
+open OnosVerif
+
+/-! ## Facts regenerated from the Go sources on every run (translator `harness/cmd/extract/tree.go`) -/
+
+/-- The delimiters the code cuts path text with are the ones the twin is written for
+    (`/`, `=`, `[`, `]`), in v2 and v3. -/
+theorem C18_fact_delimiters :
+    Generated.treeDelims2 = [("slash", "/"), ("equals", "="), ("bracketsq", "["), ("brktclose", "]")] ∧
+    Generated.treeDelims3 = Generated.treeDelims2 := by decide
+
+/-- `PrunePathValues` (v2 and v3) sorts with `sort.Slice` and tests "inside the deleted subtree"
+    with `strings.HasPrefix` — exactly the calls the twin's `sortPVs`/`hasPrefix` stand for.  When
+    the prefix test is replaced (for instance by an element-boundary helper, the repair proposed
+    for KF-C18-prune-textual) this stops checking and the twin has to follow. -/
+theorem C18_fact_prune_calls :
+    Generated.pruneCalls2 = ["make", "len", "copy", "sort.Slice", "make", "len", "len",
+      "strings.HasPrefix", "append", "len", "strings.HasPrefix", "append"] ∧
+    Generated.pruneCalls3 = Generated.pruneCalls2 := by decide
+
+/-- Every function of pkg/utils/v3/tree/tree.go is, as a syntax tree, the v2 function up to
+    `[]*PathValue` vs `[]PathValue`: one twin serves both. -/
+theorem C18_fact_v3_mirrors_v2 : Generated.treeV3MirrorsV2.all (·.2) = true ∧
+    Generated.treeV3MirrorsV2.map (·.1) =
+      ["BuildTree", "addPathToTree", "convertBasicType", "handleLeafValue", "PrunePathValues", "PrunePathMap"] := by
+  decide
 
 /-! ## Pruning -/
 
